@@ -14,6 +14,17 @@ PRINT = r"std::io::_print|std::io::_eprint"
 SM = "sparse::SparseMatrix::"
 
 
+def unwrap_calls(b):
+    return [c for c in walk(b.value) if c.get("k") == "mcall" and c["m"] in ("unwrap", "expect")]
+
+
+def selftest(C):
+    """Canary for L5 no-unwrap (expected count zero): the scan finds both sites of the positive example."""
+    n = len(unwrap_calls(C.body("zero::unwraps")))
+    if n != 2:
+        raise AnalysisError("C20 canary: unwrap/expect scan found %d of 2 sites" % n)
+
+
 def trace_run(F, mod, rx):
     b = F.body(RUN % mod)
 
@@ -310,7 +321,7 @@ def l5_l6(ck, F, tier):
         Audit(ck, F, "L5", RUN % mod, ["self"], reviewed=reviewed, no_inline=NOI, contracts="NONE", entry_label=mod).run()
     for mod in ("dvbs2", "ccsds", "ccsds_c2", "peg", "mackay_neal", "systematic", "encode", "ber"):
         b = F.body((RUN % mod).replace("cli::ber::Args", "cli::ber::Args<Dec>"))
-        unw = [c for c in walk(b.value) if c.get("k") == "mcall" and c["m"] in ("unwrap", "expect")]
+        unw = unwrap_calls(b)
         # allowed: join().unwrap() of the progress thread in ber (reviewed)
         unw = [c for c in unw if not (mod == "ber" and "join" in (strip(c["recv"]).get("m") or ""))]
         ck.inst("L5", mod + ":no-unwrap", not unw, unw[0]["sp"] if unw else b.span, "no unwrap/expect on fallible results in %s::run" % mod)
